@@ -87,15 +87,15 @@ def option_reach(rep, model):
     """an option is validated on every branch of the group function that accepts it, not only on the branch that happens to use it"""
     rep.rule('OPTION-REACH', 'compute_features_2d rejects an unknown progress value for axis=0 and for axis=None, and with axis=None and a per-epoch option list an unknown '
                              'burst_method in ANY entry raises ValueError (entry 0 through compute_features, later entries in the re-labelling ladder)')
-    from . import grp
+    from . import grp, common
     g = model.find('compute_features_2d')
     gsite = f'{g.path}:{g.node.lineno} compute_features_2d'
     for axis, an in ((C(0), '0'), (NONE, 'None')):
         ctx = SE.Ctx(model, no_inline=tuple(x for x in grp.NI if x != 'progress_bar'), kinds={'sigs': 'ndarray'})
         res, _ = E.run(model, g.qual, {'sigs': grp.SIGS2, 'compute_features_kwargs': NONE, 'axis': axis, 'progress': BOGUS[0]}, ctx=ctx)
-        unc = [r for r in ctx.raises if r[1] == T.TRUE and r[0] == 'ValueError']
-        if unc:
-            rep.ok('OPTION-REACH', f'progress:axis={an}', unc[0][2], found='unknown progress value rejected')
+        unc = [r for r in ctx.raises if r[0] == 'ValueError']
+        if common.covers_all([r[1] for r in unc]):
+            rep.ok('OPTION-REACH', f'progress:axis={an}', unc[0][2], found='unknown progress value rejected' + ('' if any(r[1] == T.TRUE for r in unc) else ' on every path'))
         else:
             rep.violation('OPTION-REACH', f'progress:axis={an}', gsite, expected='ValueError for an unknown progress value',
                           found=f'no unconditional raise on this branch (returns {T.brief(res, 60) if res else None})', key=f'OPTION-REACH@progress:axis={an}')
@@ -104,8 +104,8 @@ def option_reach(rep, model):
     for pos, kw in ((1, ('list', (K(0), bad))), (2, ('list', (K(0), K(1), bad)))):
         ctx = SE.Ctx(model, no_inline=grp.NI + ('progress_bar',), kinds=dict({'sigs': 'ndarray'}, **{f'K{i}': 'dict' for i in range(6)}))
         res, _ = E.run(model, g.qual, {'sigs': grp.SIGS2, 'compute_features_kwargs': kw, 'axis': NONE, 'progress': NONE}, ctx=ctx)
-        unc = [r for r in ctx.raises if r[1] == T.TRUE and r[0] == 'ValueError']
-        if unc:
+        unc = [r for r in ctx.raises if r[0] == 'ValueError']
+        if common.covers_all([r[1] for r in unc]):
             rep.ok('OPTION-REACH', f'burst_method of entry {pos}:axis=None', unc[0][2], found='unknown burst method rejected')
         else:
             rep.violation('OPTION-REACH', f'burst_method of entry {pos}:axis=None', gsite, expected='ValueError for an unknown burst_method in a per-epoch option set',
